@@ -44,6 +44,7 @@ type c01Run struct {
 	clk   *clock.Mock
 	mem   bool
 	names []string
+	held  map[string]FileReader // readers kept open across later operations
 	shaEm map[string]bool
 	crcEm map[string]bool
 }
@@ -179,6 +180,24 @@ func (r *c01Run) probe(name string) {
 		r.tblSha(data)
 	}
 	r.t.Op([]string{"probe", name}, "r="+rs, "s="+ss, "m="+ms, "mem="+memS)
+}
+
+// readHeld reads a held reader to the end and closes it.
+func (r *c01Run) readHeld(h string) {
+	f, ok := r.held[h]
+	if !ok {
+		r.t.Op([]string{"readh", h}, "nohandle")
+		return
+	}
+	delete(r.held, h)
+	b, err := io.ReadAll(f)
+	f.Close()
+	if err != nil {
+		r.t.Op([]string{"readh", h}, "err")
+		return
+	}
+	r.tblSha(b)
+	r.t.Op([]string{"readh", h}, verifh.Hex(b))
 }
 
 func (r *c01Run) probeAll() {
@@ -371,6 +390,20 @@ func (r *c01Run) do(op []string) (mutating bool) {
 		}
 		r.mop(a, res)
 		return true
+	case len(a) == 3 && a[0] == "open" && c01NameOK(a[1]) && c01NameOK(a[2]):
+		// a reader that stays open while later operations run (a client streaming a blob)
+		f, err := r.s.GetCacheFileReader(a[1])
+		if err == nil {
+			if old, ok := r.held[a[2]]; ok {
+				old.Close()
+			}
+			r.held[a[2]] = f
+		}
+		r.t.Op(a, c01Class(err))
+		return false
+	case len(a) == 2 && a[0] == "readh" && c01NameOK(a[1]):
+		r.readHeld(a[1])
+		return false
 	case len(a) == 2 && a[0] == "probe" && c01NameOK(a[1]):
 		r.probe(a[1])
 		return false
@@ -427,7 +460,7 @@ func c01Exec(t *verifh.T, c verifh.Case) {
 		panic(err)
 	}
 	defer s.Close()
-	r := &c01Run{t: t, s: s, clk: clk, mem: mem, shaEm: map[string]bool{}, crcEm: map[string]bool{}}
+	r := &c01Run{t: t, s: s, clk: clk, mem: mem, held: map[string]FileReader{}, shaEm: map[string]bool{}, crcEm: map[string]bool{}}
 	// the names of the case: every name-position token of its ops
 	seen := map[string]bool{}
 	for _, op := range c.Ops {
@@ -440,7 +473,7 @@ func c01Exec(t *verifh.T, c verifh.Case) {
 			if len(op) >= 4 {
 				n = op[3]
 			}
-		case "createCache", "writeBlob", "genMeta", "delete", "probe":
+		case "createCache", "writeBlob", "genMeta", "delete", "probe", "open":
 			n = op[2]
 		}
 		if n != "" && c01NameOK(n) && !seen[n] {
@@ -461,6 +494,15 @@ func c01Exec(t *verifh.T, c verifh.Case) {
 		if mut {
 			r.probeAll()
 		}
+	}
+	// readers still open are read now, after everything that happened since they were opened
+	var hs []string
+	for h := range r.held {
+		hs = append(hs, h)
+	}
+	sort.Strings(hs)
+	for _, h := range hs {
+		r.readHeld(h)
 	}
 	t.End()
 }
@@ -538,6 +580,39 @@ func TestVerif_C01(t *testing.T) {
 			rec(alpha, cfg, nil, d)
 		}
 		rec(core, cfg, nil, cor)
+	}
+
+	// (a') held readers: a reader is opened on a blob served from memory (or from disk) and read to the end only
+	// after the entry was drained / expired / deleted and other blobs (smaller, same size) went through the
+	// memory cache
+	{
+		C := c01MkBlob([]byte("vwxyz"))
+		hC := verifh.Hex(C.data)
+		between := [][]string{
+			{"op", "drain"}, {"op", "ttl"}, {"op", "tick", "11000000000"}, {"op", "delete", A.name},
+			c01WB(B.name, 3, 2, hB), c01WB(C.name, 5, 2, hC), c01WB(A.name, 5, 2, hA),
+		}
+		starts := [][][]string{
+			{c01WB(A.name, 5, 2, hA)},                 // A served from memory
+			{c01WB(A.name, 5, 2, hA), {"op", "drain"}}, // A on disk
+		}
+		var rec2 func(start, mid [][]string, d int)
+		rec2 = func(start, mid [][]string, d int) {
+			ops := append(append([][]string{}, start...), []string{"op", "open", A.name, "h0"})
+			ops = append(ops, mid...)
+			ops = append(ops, []string{"op", "readh", "h0"})
+			c01Exec(tr, verifh.Case{Cfg: cfgs[0], Ops: ops})
+			tr.Count("held_reader_cases", 1)
+			if d == 0 {
+				return
+			}
+			for _, o := range between {
+				rec2(start, append(mid[:len(mid):len(mid)], o), d-1)
+			}
+		}
+		for _, st := range starts {
+			rec2(st, nil, verifh.Scale(2, 3))
+		}
 	}
 
 	// (b) seeded random histories
@@ -687,6 +762,13 @@ func TestVerif_C01(t *testing.T) {
 				ops = append(ops, []string{"op", "genMeta", pickName(), strconv.Itoa(r.Intn(5))})
 			default:
 				ops = append(ops, []string{"op", "list"})
+			}
+			if r.Chance(1, 8) {
+				// keep a reader open across what follows (read at a later point or at the end of the case)
+				ops = append(ops, []string{"op", "open", names[r.Intn(3)], "h" + strconv.Itoa(r.Intn(3))})
+				tr.Count("random_op_open", 1)
+			} else if r.Chance(1, 20) {
+				ops = append(ops, []string{"op", "readh", "h" + strconv.Itoa(r.Intn(3))})
 			}
 			if r.Chance(1, 12) {
 				// the disk refuses one blob's shard for a while: drain retries, gives up, or succeeds later
